@@ -222,8 +222,7 @@ def rewrite_post(op, absorbable, returns_replacement=True, extra_events=()):
         if dn is None or gone.k != 'ref' or not gone.extra or gone.extra.get('shape') not in absorbable:
             return z3.BoolVal(False)
         rest = [e[0] for e in t if e[0] in ('_replace_ugen', 'optimize-again')]
-        ok = (t.index(rem[0]) < t.index(new)                                   # removed before the new unit is made
-              and all(x is not gone for x in new[2])                           # the removed unit is not read by the new one
+        ok = (all(x is not gone for x in new[2])                               # the removed unit is not read by the new one
               and inh[0][1] is new[3] and inh[0][2].k == 'obj' and inh[0][2].oid == 'self._descendants'
               and len(upd[0][1]) == 2 and upd[0][1][0] is new[3] and upd[0][1][1] is gone
               and rest == list(extra_events)
